@@ -1,6 +1,7 @@
 import SSVerif.Model.Jsgf
 import SSVerif.Model.JsgfText
 import SSVerif.Model.JsgfNames
+import SSVerif.Model.JsgfGraph
 import Driver.Util
 /-! driver sub-command `c05`: desugaring, accept/refuse decision, exploration and verified
 language comparison for JSGF grammars (line protocol, see tools/props/c05.py) -/
@@ -231,6 +232,26 @@ def step (s : St) (ws : List String) : St × String :=
         | .ok (some w) => (s', s!"differ {showWords w} impl={showOB (decideAccepts F w)} spec={showOB (decideAccepts A w)}")
         | .error e => (s', s!"error {e.replace " " "_"}")
     | _, _, _, _, _, _, _ => (s, "bad-op")
+  | ["graph", top] =>
+    -- the graph reading of "the compiler accepts" (Model/JsgfGraph.lean, C05_representable_iff_graph):
+    -- graph <representableGB> <representable (okRule)> <reachClosed for every rule> <refused for a weight only>
+    --       <undefined reachable> <user rule on a cycle> <non-last reference on a cycle> <that reference is first in
+    --       its alternative> <cycle through two user rules> <cycle through an internal rule> <bad rule not reachable>
+    match parseName top with
+    | some top =>
+      let T := s.T
+      let (fU, fC, fN, fM, fG) := graphFeatures T top
+      let R := reachList T top
+      let closedAll := reachClosed T top && T.all fun rl => reachClosed T rl.name
+      let wref := (expandTop T top).isSome && !(buildRaw T top).isSome
+      -- position of a non-last reference on a cycle: first atom of its alternative (left recursion)?
+      let left := R.any fun r => (T.rules r).any fun alt =>
+        match alt with
+        | .ref x :: _ :: _ => (reachList T x).contains r
+        | _ => false
+      let unreachBad := T.any fun rl => !R.contains rl.name && !representableGB T rl.name
+      (s, s!"graph {showB (representableGB T top)} {showB (representable T top)} {showB closedAll} {showB wref} {showB fU} {showB fC} {showB fN} {showB left} {showB fM} {showB fG} {showB unreachBad}")
+    | none => (s, "bad-op")
   | ["expand", top] =>
     match parseName top with
     | some top =>
